@@ -6,7 +6,8 @@
 (* unacceptable element (atomicity), and arbitrary ones.                   *)
 EXTENDS MC_PubServer, Json
 
-CONSTANTS Depth, MaxStreak, MaxElems
+CONSTANTS Depth, MaxStreak, MaxElems,
+          Exhaustive   \* TRUE: every delta of DeltaChoices instead of drawn ones
 
 VARIABLES hist, streak
 
@@ -41,9 +42,10 @@ GenNext ==
           \/ \E p \in Pubs : List(p) /\ hist' = Append(hist, [a |-> "List", p |-> p])
           \/ SessionReset /\ hist' = Append(hist, [a |-> "Reset", cut |-> 0])
     \/ /\ streak' = 0
-       /\ \/ \E p \in pubs : GoodStep(p)
-          \/ \E p \in pubs : NearMissStep(p)
-          \/ \E p \in Pubs : DeltaStep(p, Pick(DeltaChoices))
+       /\ \/ Exhaustive /\ \E p \in Pubs, E \in DeltaChoices : DeltaStep(p, E)
+          \/ ~Exhaustive /\ \E p \in pubs : GoodStep(p)
+          \/ ~Exhaustive /\ \E p \in pubs : NearMissStep(p)
+          \/ ~Exhaustive /\ \E p \in Pubs : DeltaStep(p, Pick(DeltaChoices))
           \/ \E p \in Pubs \ pubs : RemovePublisher(p) /\ hist' = Append(hist, [a |-> "Remove", p |-> p])
           \/ RrdpUpdate /\ hist' = Append(hist, [a |-> "Update", cut |-> 0])
 
